@@ -157,6 +157,19 @@ def main(tier=None, replay=None):
         cs.obs(t, "det", abs(np.linalg.det(M) - 1.0) / scale)
         ev = np.linalg.eigvals(M)
         cs.obs(t, "reciprocal_pairs", max(min(abs(1 / a - b) / max(1.0, abs(1 / a)) for b in ev) for a in ev))
+        # the spectrum the OBJECT reports (services/orbits.py compute_stability -> linalg/backend.py) is that of this monodromy
+        t2 = cs.trace(label + "|reported-spectrum", {"reported_eigenvalues": -80, "reported_eigenvectors": -60, "reported_indices": -70},
+                      {"family": fam, "kw": kw, "L": li, "part": "reported"})
+        ck.count(("monodromy-reported", label), True)
+        lev = np.asarray(orbit.eigenvalues, dtype=complex).ravel()
+        V = np.asarray(orbit.eigenvectors, dtype=complex)
+        nus = np.asarray(orbit.stability_indices, dtype=complex).ravel()
+        rel = lambda a, b: abs(a - b) / max(1.0, abs(a), abs(b))
+        cs.obs(t2, "reported_eigenvalues", max(max(min(rel(a, b) for b in ev) for a in lev), max(min(rel(a, b) for b in lev) for a in ev))
+               + (0.0 if len(lev) == 6 else 1.0))
+        cs.obs(t2, "reported_eigenvectors", max(float(np.linalg.norm(M @ V[:, i] - lev[i] * V[:, i])) / (max(1.0, abs(lev[i])) * float(np.linalg.norm(V[:, i])))
+                                                for i in range(6)) if V.shape == (6, 6) else 1.0)
+        cs.obs(t2, "reported_indices", max(min(rel(nu, (a + 1 / a) / 2) for a in ev) for nu in nus) + (0.0 if len(nus) == 3 else 1.0))
     # history: a period preset close to (but not equal to) the true one, then correct(): the orbit must end up with
     # the corrected period and its monodromy must be that of the corrected orbit
     for fam, kw, li in orbs[:2]:
